@@ -1200,3 +1200,7 @@ mod test {
         assert!(reader_s.recv_view(|x| *x).is_ok());
     }
 }
+
+#[cfg(multiqueue2_verif)]
+#[path = "verif_hooks/broadcast_access.rs"]
+pub mod verif_access;
